@@ -236,7 +236,7 @@ def meta(tier):
                 'like mnemonics or registers: label nop_x, constant A1) + footer; rewrites: for each kind (mnemonic case, register case, '
                 'token separator, comma spacing, bracket padding, indentation, blank lines, comments incl. ones containing a mnemonic '
                 'and a quote, label on its own line, instructions joined on one line) and each variant of the kind, every subset of the '
-                'sites (at most 2^6 per kind and variant; thorough: also every pair of kinds with all sites rewritten); oracle: '
+                'sites (at most 2^6 per kind and variant; thorough: also every pair of kinds with all sites rewritten); plus the repository\'s example programs under their own definitions with blank lines / indentation / trailing whitespace / comments added to every (or every second) line of every file; oracle: '
                 '(status, image) identical to the base rendering; non-trivial = rewritten text differs from the base text; '
                 'states = distinct base programs',
         'bounds': {'catalogue': [str(s) for s in CATALOGUE], 'kinds': {k: [str(v) for v in vs] for k, vs in VARIANTS.items()},
@@ -257,8 +257,48 @@ def judge_same(spec, outs):
     return None
 
 
+def _edit_lines(text, fn):
+    return '\n'.join(fn(i, l) for i, l in enumerate(text.split('\n')))
+
+
+CORPUS_EDITS = {
+    # (clause, edit of one file's text); applied to every file of the program, or to every second line only
+    'blank-line': lambda i, l, every: l + '\n' if (every or i % 2) else l,
+    'indent': lambda i, l, every: ('\t' + l if l.strip() else l) if (every or i % 2) else l,
+    'separator': lambda i, l, every: (l + ' \t ' if l.strip() else l) if (every or i % 2) else l,
+    'comment': lambda i, l, every: (l + ' ; a note with nop in it' if (l.strip() and '"' not in l and "'" not in l) else l) if (every or i % 2) else l,
+}
+
+
+def corpus_rewrites(acc, idx, n, q):
+    """The repository's example programs under their own definitions: blank lines, indentation, trailing whitespace and comments added
+    to every line, or to every second line, of every source file leave the image as it was."""
+    from mc import corpus
+    for pi, prog in enumerate(corpus.programs()):
+        if pi % n != idx or (q and pi % 2):
+            continue
+        base_case = corpus.case_for(prog)
+        base = acc.run(base_case)
+        acc.transition()
+        if base.status != 'OK':
+            acc.dc(f'example program {prog[0]} is not assembled by this tree')
+            continue
+        for kind, fn in CORPUS_EDITS.items():
+            for every in (True, False):
+                files = {name: _edit_lines(text, lambda i, l: fn(i, l, every)) for name, text in prog[3].items()}
+                case = corpus.case_for(prog, files=files)
+                out = acc.run(case)
+                acc.transition()
+                spec = {'type': 'same', 'kind': kind, 'program': prog[0], 'every_line': every}
+                m = judge_same(spec, [base, out])
+                if m:
+                    acc.violation([base_case, case], spec, f'example program {prog[0]}: {m[:500]}', [base, out])
+                acc.judge(clause=kind, nontrivial_distinct=True)
+
+
 def shard(acc, tier, idx, n):
     q = tier == 'quick'
+    corpus_rewrites(acc, idx, n, q)
     for pi, prog in enumerate(programs(tier)):
         if pi % n != idx:
             continue
